@@ -882,6 +882,20 @@ def _r19_11(prog: Program, res: Result) -> None:
         res.decide(not missing, "R19.11", f.loc(), f.fq, f"{f.node.name}() # census of the places that spell a name",
                    f"counts {len(SPELLING_KINDS)} node kinds: {', '.join(SPELLING_KINDS)}" if not missing else
                    f"the census does not count {missing}: a name that is left behind in such a place does not stop the renaming of the other places")
+        # what an import spells is the name it BINDS: `import a.b` spells `a` (the first component), `import a.b as c` spells `c`
+        alias_branches = []
+        todo_f = [f] + [r[1] for c in prog.calls_in(f) for r in [prog.resolve_call(c.func, f.mod, f)] if r and r[0] == "fn" and r[1].mod.name == f.mod.name]
+        for g in todo_f:
+            for b in walk_own(g.node):
+                if isinstance(b, ast.If) and "ast.alias" in norm(b.test) and "isinstance(" in norm(b.test):
+                    alias_branches.append((g, b))
+        for g, b in alias_branches:
+            text = " ".join(norm(x) for x in b.body)
+            reduced = ".split('.')[0]" in text or ".partition('.')[0]" in text
+            res.decide(reduced, "R19.11", g.loc(b), g.fq, f"{short(b.body[0], 70)} # the name an import spells",
+                       "the first component of a dotted module name: what the import binds" if reduced else
+                       "a dotted import without alias is spelled as `a.b`, which no variable equals: `import a.b` next to an assignment `a = None` is not counted as a "
+                       "place that spells `a`, the variable is renamed and the import keeps binding the old name")
     sites = (("fixes", "align_variable_names_with_convention", "yield"), ("fixes", "_fix_variable_names", "append"))
     for m, q, how in sites:
         fn = prog.funcs.get((m, q))
